@@ -86,6 +86,7 @@ static int fdpath(pid_t tid, long fd, char *out, size_t max) {
 	ssize_t n = readlink(p, out, max - 1);
 	if (n <= 0) return 0;
 	out[n] = 0;
+	if (out[0] != '/') return 0; /* anon_inode:[eventfd], pipe:[...], socket:[...]: not a file */
 	char *d = strstr(out, " (deleted)");
 	if (d && d[10] == 0) *d = 0;
 	return 1;
@@ -311,7 +312,9 @@ int main(int argc, char **argv) {
 		} else if (sig == SIGSTOP && isnew) {
 			ptrace(PTRACE_SYSCALL, tid, 0, 0); /* first stop of a new thread */
 		} else {
-			if (getenv("PTSTEP_DEBUG")) fprintf(stderr, "sig %d -> tid %d\n", sig, tid); ptrace(PTRACE_SYSCALL, tid, 0, sig); /* hand the signal to the tracee */
+			if (getenv("PTSTEP_DEBUG"))
+				fprintf(stderr, "sig %d -> tid %d\n", sig, tid);
+			ptrace(PTRACE_SYSCALL, tid, 0, sig); /* hand the signal to the tracee */
 		}
 	}
 	return result < 0 ? 3 : result;
